@@ -27,10 +27,10 @@ func (c15) Runs(tier string) int {
 }
 func (c15) Describe() core.Description {
 	return core.Description{
-		Level: "exploration",
-		Rule:  "per run: drawn parameters (LogN 4-8, 1-4 Q and 0-2 P primes of unequal size), N in 1..6 parties, t in 1..N, drawn public points (small / > 2^32 / near 2^63; distinct and non-zero modulo every prime), set-up shares sent over the simulated network (delay/reordering, duplicates, in-transit serialization, aggregation by reference/in place/fresh in arrival order), crashes during or after set-up, then 1-4 reconstruction rounds on long-lived Combiners with a drawn t-subset of survivors, per-party listing orders and differently ordered 'others' lists; about 1 run in 8 enumerates every t-subset. Non-trivial = at least one transport or crash fault fired and at least one reconstruction or refusal oracle evaluated; distinct = distinct choice traces",
-		Real:  []string{"multiparty.Thresholdizer (GenShamirPolynomial, GenShamirSecretShare, AggregateShares)", "multiparty.Combiner (NewCombiner, GenAdditiveShare)", "ShamirSecretShare serialization", "rlwe.KeyGenerator", "ring/ringqp scalar and polynomial arithmetic"},
-		Stub:  []string{"network (simnet: discrete-event transport with delay, reordering, duplication, crash)", "party bookkeeping (who sent what, duplicate suppression)", "entropy source (deterministic crypto/rand.Reader)"},
+		Level:  "exploration",
+		Rule:   "per run: drawn parameters (LogN 4-8, 1-4 Q and 0-2 P primes of unequal size), N in 1..6 parties, t in 1..N, drawn public points (small / > 2^32 / near 2^63; distinct and non-zero modulo every prime), set-up shares sent over the simulated network (delay/reordering, duplicates, in-transit serialization, aggregation by reference/in place/fresh in arrival order), crashes during or after set-up, then 1-4 reconstruction rounds on long-lived Combiners with a drawn t-subset of survivors, per-party listing orders and differently ordered 'others' lists; about 1 run in 8 enumerates every t-subset. Non-trivial = at least one transport or crash fault fired and at least one reconstruction or refusal oracle evaluated; distinct = distinct choice traces",
+		Real:   []string{"multiparty.Thresholdizer (GenShamirPolynomial, GenShamirSecretShare, AggregateShares)", "multiparty.Combiner (NewCombiner, GenAdditiveShare)", "ShamirSecretShare serialization", "rlwe.KeyGenerator", "ring/ringqp scalar and polynomial arithmetic"},
+		Stub:   []string{"network (simnet: discrete-event transport with delay, reordering, duplication, crash)", "party bookkeeping (who sent what, duplicate suppression)", "entropy source (deterministic crypto/rand.Reader)"},
 		Assume: []string{"public points are distinct and non-zero modulo every prime of Q and P (precondition of Shamir sharing over each Z_q); draws violating it are redrawn", "the active list handed to GenAdditiveShare contains exactly the listed parties, the caller among them", "a crash during set-up aborts the protocol: nothing but absence of panics is asserted then"},
 	}
 }
